@@ -93,6 +93,7 @@ func checkStamps(run *ev.Run, cc *c07Case, f string, raw []byte, how string, n *
 func c07(run *ev.Run, tier string) {
 	n := ncases(40, 400, tier)
 	run.Rule = "cases = generated configurations with fixed package mtime, fixed rpm build host, no signing, all script slots, changelogs, >=8 custom deb/ipk fields, all compressors, payloads beyond the compressors' block sizes. Each (case, format) is built: baseline; again in-process; under GOMAXPROCS 1,2,3,4,8,16; after the batch crossed a wall-clock second; and by the nfpm binary under TZ=UTC/Asia/Tokyo/America/St_Johns x GOMAXPROCS 1/16 x absolute/cwd-relative source paths x mtime in YAML/SOURCE_DATE_EPOCH (incl. SOURCE_DATE_EPOCH=0, =2208988800 and =-86400 twice, one second apart). All outputs of a (case, format) must be byte-identical; every timestamp decoded from the output (ar, every tar level incl. atime/ctime, gzip MTIME, rpm BUILDTIME/FILEMTIMES/changelog, cpio, archlinux builddate, .MTREE) must be the package mtime, a per-entry mtime, an on-disk mtime of a source of that case, or 0/unset. History scenarios: failed builds between good ones (GOMAXPROCS 1 and N), a changelog entry without a date after a second passed, rebuilding from the same parsed configuration after source metadata changed, a CLI rebuild over an older larger package; SOURCE_DATE_EPOCH negative / after 2038 / zero-padded / set next to a different configured mtime; the mtime written with a zone offset; destinations differing only in letter case; a .MTREE listing beyond 512 KiB. non-trivial = case with >=2 scripts and a payload file >= 128 KiB or a changelog; distinct = feature set"
+	run.Rule += "; the nfpm binary pinned to one and to three processors (taskset)"
 	bin := nfpmBin(run)
 	var builds, stamps, cliRuns int64
 	cases := make([]*c07Case, n)
